@@ -79,6 +79,8 @@ def ty(t):
     if origin is dict:
         return ['dict', ty(args[0]), ty(args[1])] if len(args) == 2 else ['unknown', repr(t)]
     if origin is tuple:
+        if args and args[-1] is not Ellipsis:
+            return ['tuple', [ty(a) for a in args]]
         return ['unknown', 'tuple']
     if origin is typing.ClassVar:
         return ['classvar']
